@@ -357,6 +357,10 @@ Section Resolve.
     if d_group d =? 0 then req rs h (d_ty d) (name_key (d_name d))
     else group_value rs h (d_ty d) (d_group d).
 
+  (* what an optional field keeps when its dependency is not available: the zero value of its type - for a
+     `struct{}` field that is the one value the type has *)
+  Definition zero_of (d : dep) : aval := if (d_ty d =? T_VOID) && (d_group d =? 0) then AInst IVoid else AZero.
+
   Fixpoint args_loop (rs : rstate) (h : nat) (inobj : bool) (ps : list param) (acc : list aval)
     : rstate * (list aval + rres) :=
     match ps with
@@ -367,7 +371,7 @@ Section Resolve.
         | (rs1, ROkV a) => args_loop rs1 h inobj ps' (a :: acc)
         | (rs1, RFuel) => (rs1, inr RFuel)
         | (rs1, RFail e) =>
-            if inobj && d_opt d then args_loop rs1 h inobj ps' (AZero :: acc)
+            if inobj && d_opt d then args_loop rs1 h inobj ps' (zero_of d :: acc)
             else (rs1, inr (RFail e))
         end
     end.
@@ -386,6 +390,20 @@ Section Resolve.
             if out_is_nil (ds_reg d) k && life_eqb (ds_life d) Singleton
             then fan_out p h d inv rest        (* setSingleton ignores nil; a scope remembers it as nil *)
             else fan_out (store (ds_life d) p h (ds_ident sd) (out_inst (ds_reg d) inv k)) h d inv rest
+        end
+    end.
+
+  (* a result object all of whose (still registered) fields are nil "produced no services": the construction fails,
+     nothing is stored or remembered, but outputs whose registration was removed are still disposed by their owner *)
+  Definition stores_any (c : coll) (d : desc) (ks : list nat) : bool :=
+    existsb (fun k => match output_desc c d k with Some _ => negb (out_is_nil (ds_reg d) k) | None => false end) ks.
+  Fixpoint drop_only (p : prov) (h : nat) (d : desc) (inv : nat) (ks : list nat) : prov :=
+    match ks with
+    | [] => p
+    | k :: rest =>
+        match output_desc (p_descs p) d k with
+        | None => drop_only (drop_output p h (ds_life d) (out_inst (ds_reg d) inv k)) h d inv rest
+        | Some _ => drop_only p h d inv rest
         end
     end.
 
@@ -423,8 +441,10 @@ Section Resolve.
                 | FCtor _ _ ts _ =>
                     (with_p rs2 (fan_out (rs_p rs2) h d inv (seq 0 (length ts))), ROkV (aval_of (out_inst r inv (ds_out d))))
                 | FResult _ _ fs _ =>
-                    (with_p rs2 (fan_out (rs_p rs2) h d inv (seq 0 (length fs))),
-                     ROkV (aval_of (out_inst r inv (ds_out d))))
+                    if stores_any (p_descs (rs_p rs2)) d (seq 0 (length fs))
+                    then (with_p rs2 (fan_out (rs_p rs2) h d inv (seq 0 (length fs))),
+                          ROkV (aval_of (out_inst r inv (ds_out d))))
+                    else (with_p rs2 (drop_only (rs_p rs2) h d inv (seq 0 (length fs))), RFail EValidation)
                 | FInst _ => (rs2, RFail EOther)
                 end
             end
@@ -537,9 +557,14 @@ Fixpoint run_inits (rs : rstate) (h : nat) (ds : list desc) : rstate * option rr
   match ds with
   | [] => (rs, None)
   | d :: ds' =>
-      match create_top rs h d with
-      | (rs1, ROkV _) => run_inits rs1 h ds'
-      | (rs1, r) => (rs1, Some r)
+      (* an initializer that an earlier one took as a (named) dependency has run in this scope already *)
+      match lookup_i (sc_cache (get_scope (rs_p rs) h)) (ds_ident d) with
+      | Some _ => run_inits rs h ds'
+      | None =>
+          match create_top rs h d with
+          | (rs1, ROkV _) => run_inits rs1 h ds'
+          | (rs1, r) => (rs1, Some r)
+          end
       end
   end.
 
@@ -560,6 +585,10 @@ Definition build_cancelled (rs : rstate) : bool :=
 (* each descriptor is attempted at most once per Build ([att]: identities attempted so far): a descriptor whose
    output the constructor leaves nil stays without an instance, and is not a reason to run the constructor again *)
 Definition attempted (att : list ident) (d : desc) : bool := existsb (ident_eqb (ds_ident d)) att.
+(* once a constructor has run, every descriptor of that registration call counts as attempted: a constructor that leaves
+   all of its outputs nil is not run once per output *)
+Definition call_idents (c : coll) (d : desc) : list ident :=
+  ds_ident d :: map ds_ident (filter (fun x => (ds_rid x =? ds_rid d) && (ds_call x =? ds_call d)) c).
 Fixpoint create_singletons (rs : rstate) (att : list ident) (ds : list desc) : rstate * list ident * option rres :=
   match ds with
   | [] => (rs, att, None)
@@ -567,7 +596,7 @@ Fixpoint create_singletons (rs : rstate) (att : list ident) (ds : list desc) : r
       if singleton_pending (rs_p rs) d && negb (attempted att d)
       then if build_cancelled rs then (rs, att, Some (RFail ECancelled)) else
            match create_top rs 0 d with
-           | (rs1, ROkV _) => create_singletons rs1 (ds_ident d :: att) ds'
+           | (rs1, ROkV _) => create_singletons rs1 (call_idents (p_descs (rs_p rs1)) d ++ att) ds'
            | (rs1, r) => (rs1, att, Some r)
            end
       else create_singletons rs att ds'
@@ -588,7 +617,7 @@ Fixpoint create_by_order (rs : rstate) (att : list ident) (c : coll) (ord : list
       | Some d =>
           if build_cancelled rs then (rs, att, Some (RFail ECancelled)) else
           match create_top rs 0 d with
-          | (rs1, ROkV _) => create_by_order rs1 (ds_ident d :: att) c ord'
+          | (rs1, ROkV _) => create_by_order rs1 (call_idents (p_descs (rs_p rs1)) d ++ att) c ord'
           | (rs1, r) => (rs1, att, Some r)
           end
       end
